@@ -5,12 +5,13 @@ CONSTANTS
   Scopes = {0, 8, 20, 24, 32}
   Echoes = {0, 2, 4}
   FwdMax = 24
-  Floor = 24
+  Floor = 16
   Enabled = TRUE
-  MaxSteps = 6
+  DropsMismatch <- AsBuilt
+  MaxSteps = 3
 INIT Init
 NEXT Next
-
+VIEW View
 INVARIANTS TypeOK EcsLeavesOnlyIfAllowed NeverTooSpecific
-
+PROPERTIES ScopedAudience DeclaredScopeAudience
 CHECK_DEADLOCK FALSE
